@@ -14,12 +14,14 @@ SPEC = {
     "harness_args": {"quick": ["-tier", "quick"], "thorough": ["-tier", "thorough"]},
     "timeout": {"quick": 600, "thorough": 2400},
     "level": "proof",
-    "tie": "T3: real in-process nodes (NewNode+Serve on loopback ports, child processes for kills) and the Lean model are run on the same scenario lines - who holds which record / shard file (by content digest) after every interrupted and every failure-free round, Sync results, chunk sequences seen at the sender, replies of RPCSendShard to hand-made chunk sequences; T2: tools/facts_c14 regenerates CHUNKSIZE, the receiver's open flags (O_TRUNC only at chunk 0), MkdirAll only at chunk 0, the checksum condition, the order send -> compare -> delete of both phases and the routing keys from the working tree; C14_converges_repo is proved for the generated configuration",
+    "tie": "T3: real in-process nodes (NewNode+Serve on loopback ports, child processes for kills) and the Lean model are run on the same scenario lines - who holds which record / shard file (by content digest) after every interrupted and every failure-free round, Sync results, chunk sequences seen at the sender, replies of RPCSendShard to hand-made chunk sequences; histories over several server lists (interrupted change, roll-back without draining, client writes through the real cluster API declared to the model as writes at the routing owner, list applied again / random walks): the predicate Safe of every list change and the write precondition are evaluated on the real disks with the real RendezvousHash and by the model, and compared; T2: tools/facts_c14 regenerates CHUNKSIZE, the receiver's open flags (O_TRUNC only at chunk 0), MkdirAll only at chunk 0, the checksum condition, the order send -> compare -> delete of both phases, the receive loop of RPCSetNodeKeyValue (every pair is put unconditionally and counted) and the routing keys from the working tree; C14_converges_repo is proved for the generated configuration",
     "required_theorems": [
         "Sema.C14.C14_chunks", "Sema.C14.C14_no_loss", "Sema.C14.C14_remove_only_after_confirm",
         "Sema.C14.C14_converges", "Sema.C14.C14_converges_repo",
         "Sema.C14.C14_converges_pinned_false", "Sema.C14.C14_pinned_stuck",
         "Sema.C14.C14_empty_file_never_moves",
+        "Sema.C14.C14_epochs_no_loss", "Sema.C14.C14_epochs_remove_only_after_confirm",
+        "Sema.C14.C14_epochs_converges", "Sema.C14.C14_epochs_safe_change",
     ],
     "trusted_base": [
         "OS file semantics: a file is a byte list; O_APPEND|O_CREATE appends / creates, O_TRUNC empties; os.File.Read returns (n>0, nil) until the end and then (0, io.EOF); RemoveAll removes the shard directory; writes of a killed process that returned are on disk",
@@ -27,12 +29,14 @@ SPEC = {
         "bbolt: RPCSetNodeKeyValue / the local delete are atomic write transactions",
         "FileHash (xxhash64) is collision-free on the files involved and FileHash of the empty file is not 0 (hypothesis SumOK of every theorem; the second half is checked on every run)",
         "routing is an arbitrary function key -> node in the theorems (C13 is about RendezvousHash); the harness supplies the real RendezvousHash owner per key",
-        "no client traffic during the synchronisation (sync.go says so); every node runs with the same server list; the server list does not change between an interrupted round and the round that completes it",
+        "no client traffic during the synchronisation (sync.go says so): client writes happen while no started node other than the owner holds the key (QuietR / QuietF; established by every failure-free round, C14_epochs_converges); every started node runs with the same server list",
+        "a change of the server list is Safe (Model.lean): an out-of-date copy (older record, left-over of an interrupted transfer, copy of something deleted) on a node that is started sits at the new routing owner, the current content is on a started node, at most one started non-owner holds a shard. Sync ships whatever a non-owner holds as if it were current, so without this the property is false for the code as written (Props.lean: example with eWbad; DESIGN section 8). The harness generates only Safe changes (checked on the real disks and by the model); rolling an interrupted change back and applying it again is Safe because rendezvous hashing gives the same owner for the same list",
         "Content symbols of the executable comparison: bytes for records and hand-made chunks, 4 KiB pages (FNV-1a) for shard files, CHUNKSIZE = 2048 pages",
     ],
     "assumptions": [
         "shard files are non-empty (bbolt files are): an empty sharddb.bbolt can never be moved (C14_empty_file_never_moves)",
-        "before the change every record / shard is on exactly one node (Init)",
+        "before the first change every record / shard is on exactly one node (Init / WInit)",
+        "a record of a DELETED collection that an out-of-date node brings back is not judged (the property speaks about the records that exist)",
     ],
 }
 
